@@ -337,6 +337,48 @@ theorem andThen_eq {ρ : Type} (v : V α) (f : α → ρ) : andThen v f = .ok ((
   unfold andThen hasValue deref getAt Spec.absO
   by_cases h : v.idx = 1 <;> simp [h]
 
+/-- optional::or_else hands on the contained value exactly when the optional is engaged, and never reads an empty one -/
+theorem orElse_eq (v : V α) : orElse v = .ok (Spec.absO v) := by
+  unfold orElse hasValue deref getAt Spec.absO
+  by_cases h : v.idx = 1 <;> simp [h]
+
+/-- expected::value_or, for an object holding one of its two members -/
+theorem expValueOr_eq (v : V α) (d : α) (h : v.idx < 2) : expValueOr v d = .ok ((Spec.absE v).valueOr d) := by
+  unfold expValueOr expDeref expHas getAt Spec.absE
+  by_cases h0 : v.idx = 0 <;> simp [h0, Spec.E.valueOr]
+
+example : (⟨1, 7⟩ : V Nat).idx < 2 := by decide
+
+/-- expected::and_then: the callable sees the value, an error is propagated; the `error()` precondition holds on the
+    path that calls it -/
+theorem expAndThen_eq {ρ : Type} (v : V α) (f onErr : α → ρ) (h : v.idx < 2) :
+    expAndThen v f onErr = .ok ((Spec.absE v).andThen f onErr) := by
+  unfold expAndThen expDeref expError expHas getAt Spec.absE
+  have : v.idx = 0 ∨ v.idx = 1 := by omega
+  rcases this with h0 | h1
+  · simp [h0, Spec.E.andThen]
+  · simp [h1, Spec.E.andThen]
+
+example : (⟨1, 7⟩ : V Nat).idx < 2 := by decide
+
+/-- expected::or_else: a value is handed on, the callable sees the error -/
+theorem expOrElse_eq {ρ : Type} (v : V α) (onVal f : α → ρ) (h : v.idx < 2) :
+    expOrElse v onVal f = .ok ((Spec.absE v).orElse onVal f) := by
+  unfold expOrElse expDeref expError expHas getAt Spec.absE
+  have : v.idx = 0 ∨ v.idx = 1 := by omega
+  rcases this with h0 | h1
+  · simp [h0, Spec.E.orElse]
+  · simp [h1, Spec.E.orElse]
+
+example : (⟨0, 7⟩ : V Nat).idx < 2 := by decide
+
+/-- expected::error() on an object holding its error member -/
+theorem expError_eq (v : V α) (h : v.idx = 1) : expError v = .ok v.val := by
+  unfold expError expHas getAt
+  simp [h]
+
+example : (⟨1, 7⟩ : V Nat).idx = 1 := rfl
+
 /-! ## converting constructor / assignment: which alternative -/
 
 /-- the overload-resolution scan of the converting constructor and converting assignment (left to right, best
